@@ -17,7 +17,7 @@ PLANS = {
     "C02": {"quick": std(30000, 200000), "thorough": std(300000, 3000000, cap=900)},
     "C03": {"quick": std(30000, 200000), "thorough": std(300000, 3000000, cap=900)},
     "C04": {"quick": std(10000, 70000), "thorough": std(150000, 1200000, cap=900)},
-    "C05": {"quick": std(30000, 0, 60000), "thorough": std(300000, 0, 1000000, cap=900) + [("miri", 48, 2400)]},
+    "C05": {"quick": std(30000, 0, 60000), "thorough": std(300000, 0, 1000000, cap=900) + [("miri", 96, 1500)]},
     "C06": {"quick": std(30000, 100000, 30000), "thorough": std(300000, 1500000, 300000, cap=900)},
     "C07": {"quick": std(1500, 5000, 1500), "thorough": std(15000, 80000, 15000, cap=900)},
     "C08": {"quick": std(40000, 150000), "thorough": std(400000, 2000000, cap=900)},
